@@ -400,8 +400,10 @@ func runC03(r *core.Run) {
 			{[][]int{{2, 2, 2}, {2, 3, 2}, {3, 1, 2}, {1, 2, 3}, {3, 3, 3}, {2, 3, 4}}, 3, true},
 			{[][]int{{2, 2, 2, 2}, {2, 1, 2, 3}, {3, 2, 1, 2}, {2, 3, 2, 3}}, 2, true},
 			{[][]int{{2, 2, 2, 2, 2}, {1, 2, 3, 2, 1}, {2, 1, 3, 2, 2}}, 2, false},
+			// vector-like shapes of rank >= 3 (one long axis): their strided views take the vector shortcuts
+			{[][]int{{1, 3, 1}, {3, 1, 1}, {1, 1, 3}, {1, 4, 1, 1}}, 3, true},
 		}
-		r.SetBound("plan", "rank0-2 dims<=3 depth 3 full alphabet; rank3 {(2,2,2),(2,3,2),(3,1,2),(1,2,3),(3,3,3),(2,3,4)} depth 3; rank4 4 shapes depth 2; rank5 3 shapes depth 2 with alphabet {T(p) all 120, T(), UT, Transpose, Materialize}")
+		r.SetBound("plan", "rank0-2 dims<=3 depth 3 full alphabet; rank3 {(2,2,2),(2,3,2),(3,1,2),(1,2,3),(3,3,3),(2,3,4)} depth 3; rank4 4 shapes depth 2; rank5 3 shapes depth 2 with alphabet {T(p) all 120, T(), UT, Transpose, Materialize}; vector-like (1,3,1),(3,1,1),(1,1,3),(1,4,1,1) depth 3")
 	} else {
 		plans = []plan{
 			{ref.ShapesUpTo(0, 2, 4), 4, true},
@@ -410,6 +412,7 @@ func runC03(r *core.Run) {
 			{append(ref.Shapes(4, 2), []int{2, 3, 2, 3}, []int{3, 3, 3, 3}, []int{2, 1, 3, 4}), 2, true},
 			{[][]int{{2, 2, 2, 2}, {2, 1, 2, 3}}, 3, true},
 			{append(ref.Shapes(5, 2), []int{3, 3, 3, 3, 3}, []int{1, 2, 3, 2, 1}, []int{2, 3, 1, 3, 2}), 2, false},
+			{[][]int{{1, 3, 1}, {3, 1, 1}, {1, 1, 3}, {1, 4, 1, 1}, {1, 1, 5, 1}, {4, 1, 1, 1}}, 3, true},
 		}
 		r.SetBound("plan", "rank0-2 dims<=4 depth 4; rank3 dims<=3 depth 3 (+3 shapes depth 4); rank4 dims<=2 + 3 shapes depth 2 (2 shapes depth 3); rank5 dims<=2 + (3,3,3,3,3) + 2 shapes depth 2 reduced alphabet")
 	}
